@@ -121,7 +121,7 @@ fn run(ctx: &Ctx) {
         }
     }
     ctx.shrink_iters.set(60_000);
-    let cases = ctx.share(ctx.tier.pick(800_000, 32_000_000));
+    let cases = ctx.share(ctx.tier.pick(3_200_000, 64_000_000));
     ctx.search("soup", "bytes", cases, soup::soup(24), |s, want_case| {
         let prog = soup::lower(s);
         let v = check_bytes(&prog);
@@ -130,7 +130,7 @@ fn run(ctx: &Ctx) {
         }
         (v, if want_case { json!({"bytes": isa::hex(&prog), "listing": isa::listing(&prog, 30)}) } else { Value::Null })
     });
-    let cases = ctx.share(ctx.tier.pick(100_000, 2_000_000));
+    let cases = ctx.share(ctx.tier.pick(400_000, 8_000_000));
     ctx.search("random", "bytes", cases, prop::collection::vec(any::<u8>(), 0..40), |prog, want_case| {
         let v = check_bytes(prog);
         if !want_case {
